@@ -1128,8 +1128,6 @@ class ManifestRecursiveLoader:
             hashes = self.hashes
         assert hashes is not None
 
-        manifest_filenames = get_potential_compressed_names('Manifest')
-
         new_manifests = self.load_unregistered_manifests(
             path, verify_manifests=verify_manifests)
         entry_dict = self.get_deduplicated_file_entry_dict_for_update(
@@ -1221,7 +1219,7 @@ class ManifestRecursiveLoader:
                 else:
                     # skip top-level Manifest, we obviously can't have
                     # an entry for it
-                    if fpath in manifest_filenames:
+                    if fpath == self.top_level_manifest_filename:
                         continue
                     if fpath in new_manifests:
                         ftype = 'MANIFEST'
@@ -1281,7 +1279,8 @@ class ManifestRecursiveLoader:
                         mm = m
                         mmdirpath = mdirpath
                         i = -1
-                        while mmdirpath == os.path.dirname(fe.path):
+                        while (mmdirpath == os.path.dirname(fe.path)
+                               and -i < len(manifest_stack)):
                             i -= 1
                             mmpath, mmdirpath, mm = manifest_stack[i]
 
